@@ -66,7 +66,10 @@ func (e *Engine) facetList(st *State) ([]string, []*Term) {
 // findViolations enumerates models of (pc ∧ bad), filtering the ones listed as known findings.
 func (e *Engine) findViolations(st *State, bad *Term, label, msg string) (violated bool) {
 	tb := e.tb
-	bad = tb.And(bad, st.SPC)
+	spc := st.SPC
+	if spc == nil {
+		spc = tb.True
+	}
 	fnames, fterms := e.facetList(st)
 	recs := st.nondetList()
 	var extras []*Term
@@ -105,7 +108,9 @@ func (e *Engine) findViolations(st *State, bad *Term, label, msg string) (violat
 					continue
 				}
 			}
-			r2, m2 := e.sol.CheckModel(st.PC, tb.And(q, small), extras...)
+			// the schedule constraints are conjoined only now (they are satisfiable by construction and share no
+			// variable with the data constraints): the model then also fixes the schedule variables s_k
+			r2, m2 := e.sol.CheckModel(st.PC, tb.And(tb.And(q, small), spc), extras...)
 			if r2 == ResSat {
 				m = m2
 				break
